@@ -424,7 +424,7 @@ func csvPermuted(cc *run.Case) bool {
 func fmtFloat(v float64, bits int) string { return strconv.FormatFloat(v, 'g', -1, bits) }
 
 func c11(ctx *run.Ctx) {
-	cases := ctx.Pick(300, 5000)
+	cases := ctx.Pick(300, 30000)
 	per := 25
 	type variant struct {
 		name string
